@@ -254,7 +254,7 @@ def scopeBlockIndices (h : Range) (blocks : List Range) : List Nat :=
   | none => []
   | some body =>
     if body.contains h then
-      (blocks.zipIdx.filter (fun (b, _) => body.contains b)).map (·.2)
+      (blocks.zipIdx.filter (fun (b, _) => body.contains b && b.s ≥ h.e)).map (·.2)
     else
       (blocks.zipIdx.filter (fun (b, _) => body.overlaps b && !b.lt body)).map (·.2)
 
